@@ -29,10 +29,15 @@
     table and the next dereference cannot be resolved (hardware: a fault; the translation: GPanic) while the
     hand-written model and the test harness (which hands out a host pointer once) carry on.  That input is outside
     C04's theorems too (Init only on a frame no tree uses).
-    Statements only; proofs are in Vmm/PdtTrans.v. *)
+    [C04_pdt_init_is_translation_inv] discharges [T.init_stable] IN GENERAL under the hypotheses of C04_pdt_init (the
+    invariant [Inv] of the active space, a backed frame that no tree uses and the allocator will not hand out, not the
+    guarded zero frame): no per-state check.  OUTSIDE that domain the Go code re-resolves the pointer after Memset and
+    after each store while the model resolves it once; the examples keep the differing case (Init of a live page table).
+    Statements only; proofs are in Vmm/PdtTrans.v and Vmm/StableInv.v. *)
 From Coq Require Import NArith String List.
 From FF Require Import Lib.Word Lib.GoOps Gen.Consts_mm_vmm Gen.Trans_vmm_pdt Vmm.Pt.
-From FF Require Vmm.PdtTrans.
+From FF Require Vmm.PdtTrans Vmm.StableInv.
+From FF Require Import Vmm.PtMap.
 Module T := FF.Vmm.PdtTrans.
 Import ListNotations.
 Local Open Scope N_scope.
@@ -107,3 +112,22 @@ Theorem C04_pdt_trans_keeps_w64 :
     (forall p, unmap_page p s = Ok (s', e) -> T.mem_w64 s').
 Proof. exact T.trans_keeps_w64. Qed.
 Print Assumptions C04_pdt_trans_keeps_w64.
+
+(** Init on the whole domain of C04_pdt_init *)
+Theorem C04_pdt_init_is_translation_inv :
+  forall (s : st) (A : N) (own : PtTree.ownmap) (slot F : N) (tr0 : list gcall) (pdt0 : N),
+    Inv s A A own -> (prot s && (F =? zf s)) = false -> backed s F = true -> own F = None -> ~ In F (orc s) ->
+    go_vmm_PageDirectoryTable_Init (mk_go_vmm_world tr0 (set_pdt s slot F)) pdt0 F
+      T.o_active T.o_memset T.o_maptemp T.o_unmap =
+    match pdt_init slot F s with
+    | Stray => GPanic
+    | Ok (s', e) =>
+        GOk (mk_go_vmm_world
+               ((if frame_addr F =? cr3 s then [T.ev_active]
+                 else if e =? 0
+                      then [T.ev_unmap temp_page; T.ev_memset (frame_addr temp_page); T.ev_maptemp F; T.ev_active]
+                      else [T.ev_maptemp F; T.ev_active]) ++ tr0) s',
+             (T.err_of e, F))
+    end.
+Proof. exact StableInv.pdt_init_is_translation_inv. Qed.
+Print Assumptions C04_pdt_init_is_translation_inv.
